@@ -44,6 +44,15 @@ type script struct {
 	Plans    []string         `json:"plans"` // initial dial plan per peer
 	Delays   []int64          `json:"delays,omitempty"`
 	Bursts   [][]act          `json:"bursts"`
+	// Arms: targeted schedule-point delays, each armed right before its burst
+	Arms []scriptArm `json:"arms,omitempty"`
+}
+
+type scriptArm struct {
+	Burst int    `json:"burst"`
+	Point string `json:"point"`
+	Skip  int    `json:"skip"`
+	D     int64  `json:"d"`
 }
 
 // apiCall records one blocking API call made by the script.
@@ -161,7 +170,11 @@ func runScript(t *testing.T, s script) *trace {
 	tr := &trace{ConnPeer: map[int]string{}, RemoteOpenSent: map[int]bool{}}
 	var mu sync.Mutex
 	tr.Outcome = world.Run(t, func() {
-		w, err := world.New(s.RouterID, s.Delays)
+		delays := s.Delays
+		if len(delays) == 0 && len(s.Arms) > 0 {
+			delays = []int64{0} // switches the schedule-point hook on
+		}
+		w, err := world.New(s.RouterID, delays)
 		if err != nil {
 			tr.Dump = "setup: " + err.Error()
 			return
@@ -209,6 +222,11 @@ func runScript(t *testing.T, s script) *trace {
 			return m
 		}
 		for bi, burst := range s.Bursts {
+			for _, a := range s.Arms {
+				if a.Burst == bi {
+					w.Arm(a.Point, a.Skip, a.D)
+				}
+			}
 			tr.Stages = append(tr.Stages, stageMap())
 			touched := map[int]bool{}
 			for ai, a := range burst {
@@ -508,6 +526,7 @@ func genScript(rt *rapid.T, prof scriptProfile) script {
 		}
 	}
 	nb := rapid.IntRange(3, prof.bursts).Draw(rt, "nbursts")
+	var armAt []scriptArm
 	for i := 0; i < nb; i++ {
 		var b []act
 		switch rapid.IntRange(0, 9).Draw(rt, "bkind") {
@@ -535,6 +554,16 @@ func genScript(rt *rapid.T, prof scriptProfile) script {
 				if rapid.Bool().Draw(rt, "endconc") {
 					b = append(b, genAct(rt, n, prof))
 				}
+			} else if prof.api > 0 && rapid.IntRange(0, 2).Draw(rt, "stopinka") == 0 {
+				// the peer is removed (or the server closed) while the
+				// KEEPALIVE that completes the handshake is being handled;
+				// the state function about to be entered dawdles
+				b = append(b, act{Op: pick(rt, "stopop", "del", "del", "close"), P: pi})
+				if rapid.Bool().Draw(rt, "stopfirst") {
+					b[0], b[1] = b[1], b[0]
+				}
+				armAt = append(armAt, scriptArm{Burst: len(s.Bursts), Point: "fsm.enter",
+					Skip: rapid.IntRange(0, 1).Draw(rt, "stopskip"), D: pick[int64](rt, "stopd", 20, 80, 200)})
 			}
 		case 6:
 			if prof.api == 0 {
@@ -560,6 +589,20 @@ func genScript(rt *rapid.T, prof scriptProfile) script {
 			}
 		}
 		s.Bursts = append(s.Bursts, b)
+	}
+	s.Arms = armAt
+	if rapid.IntRange(0, 2).Draw(rt, "arms") == 0 {
+		// one or two targeted delays: the goroutine that next passes the
+		// named point during that burst dawdles there while the rest of the
+		// burst (an API call, a remote message) goes ahead
+		for i, k := 0, rapid.IntRange(1, 2).Draw(rt, "narms"); i < k; i++ {
+			s.Arms = append(s.Arms, scriptArm{
+				Burst: rapid.IntRange(0, len(s.Bursts)-1).Draw(rt, "armburst"),
+				Point: pick(rt, "armpoint", "fsm.enter", "fsm.enter", "fsm.transition", "peer.loop", "peer.collision"),
+				Skip:  rapid.IntRange(0, 2).Draw(rt, "armskip"),
+				D:     pick[int64](rt, "armd", 10, 50, 150),
+			})
+		}
 	}
 	return s
 }
